@@ -12,14 +12,15 @@ unrelated package next to a derived node that collapses to a dependency leaf get
 side): `merge_no_versions` assumes the `NoVersions` package is one of the two packages of the
 dependency.  Such trees are not produced by `resolve` (see below) nor by sound resolution steps.
 
-Open: (1) that every tree returned by the solver model is `ResolutionShaped` / `Sound` (it follows from
-the store invariant: derived terms are `priorCause` results — stated in DESIGN.md as the next link);
-(2) "never panics on a tree produced by resolve": proved is `C09_no_panic_partial` (no `NoVersions`
+`C09_on_resolve_trees` closes the chain for the trees `resolve` returns (they satisfy all four
+hypotheses, by the store invariant: derived terms are `priorCause` results).
+Open: "never panics on a tree produced by resolve": proved is `C09_no_panic_partial` (no `NoVersions`
 leaf next to a `NotRoot` leaf ⇒ no panic); that resolve never produces such a pair needs a solver
-invariant.  Both are covered by the correspondence (every NoSolution tree of the scope is collapsed by
-the real code and by the model and re-checked semantically by the oracle).
+invariant.  Covered by the correspondence (every NoSolution tree of the scope is collapsed by the real
+code and by the model and re-checked semantically by the oracle).
 -/
 import PubgrubProofs.CollapseSound
+import PubgrubProofs.TreeLink
 
 namespace Pubgrub.C09
 open Pubgrub
@@ -61,5 +62,17 @@ theorem C09_no_panic_partial (t : DerivationTree P S V M) (h : ¬ t.NoVersionsBe
 theorem C09_leaf_truth_link (W : World P S V M) (root : P) (rv : V) (e : External P S V M)
     (h : e.TrueIn W root rv) : e.TrueInExisting W root rv :=
   External.trueInExisting_of_trueIn W root rv e h
+
+/-- C09 for every tree carried by a `NoSolution` result of `resolve` (any world, any consistent
+answers): if `collapse_no_versions` returns, the explanation is still true of the existing versions,
+the top still forbids the root, and `NoVersions` leaves survive only next to `NoVersions` / `Custom` -/
+theorem C09_on_resolve_trees {Pr E : Type} [DecidableEq V] [LE Pr] [DecidableLE Pr]
+    (W : World P S V M) (hW : W.SetsValid) (debug : Bool) (fuel : Nat)
+    (root : P) (rv : V) (s : SolverState P S V M Pr) (tree : DerivationTree P S V M)
+    (h : Reachable (E := E) W debug fuel root rv (s, .noSolution tree))
+    (t' : DerivationTree P S V M) (hc : tree.collapseNoVersions = .ok t') :
+    t'.Sound W.Exists ∧ t'.LeavesTrueExisting W root rv ∧ t'.NoVersionsOnlyBesideLeaf ∧
+      (∀ σ : P → Option V, Within W.Exists σ → σ root = some rv → TermsTrue σ t'.terms) :=
+  noSolution_collapse_sound W hW debug fuel root rv s tree h t' hc
 
 end Pubgrub.C09
